@@ -1,6 +1,8 @@
 pub mod backend;
 pub mod c04;
 pub mod c09;
+pub mod c15;
+pub mod c18;
 pub mod c20;
 pub mod crash;
 pub mod crashchecks;
@@ -19,6 +21,8 @@ pub fn all_checks() -> Vec<Box<dyn driver::Check>> {
     vec![
         Box::new(c04::C04),
         Box::new(c09::C09),
+        Box::new(c15::C15),
+        Box::new(c18::C18),
         Box::new(crashchecks::c01()),
         Box::new(crashchecks::c11()),
         Box::new(faultchecks::C08),
